@@ -265,7 +265,7 @@ Proof.
   destruct (split_first EQ _) as [key v].
   pose proof (parse_tag_key_never_panics key names) as H.
   destruct (parse_tag_key is_letter is_digit key names) as [[name args]| |]; try congruence; try discriminate.
-  destruct name; discriminate.
+  destruct name; [destruct (wants_empty_name key names)|]; discriminate.
 Qed.
 
 (* the loop: first failing line decides; otherwise the tags are grouped by name in order *)
@@ -333,26 +333,37 @@ Proof.
   destruct H as [_ H]. rewrite H. destruct (values_for _ _); simpl; congruence.
 Qed.
 
-(* only requested names are returned, and never the empty name *)
+(* only requested names are returned; the empty name only when it is the tag's own name *)
 Lemma parse_fn_line_tag marker names line t :
   parse_fn_line is_letter is_digit marker names line = LTag t ->
-  tname t <> [] /\ (names <> [] -> In (tname t) names).
+  names <> [] -> In (tname t) names.
 Proof.
   unfold parse_fn_line. destruct (trim is_space line) as [|c l]; [discriminate|].
   destruct (negb (has_prefix marker (c :: l))); [discriminate|].
   destruct (split_first EQ _) as [key v].
-  unfold parse_tag_key. destruct (split_first LP key) as [nm rest].
-  destruct names as [|n0 names'].
-  - destruct rest as [r|].
+  unfold parse_tag_key, wants_empty_name. destruct (split_first LP key) as [nm rest]. cbn [fst].
+  destruct names as [|n0 names']; [congruence|]. intros H _.
+  destruct (mem_str nm (n0 :: names')) eqn:Hm; cbn [negb] in H.
+  - apply mem_str_In in Hm. destruct rest as [r|].
     + destruct (parse_tag_args is_letter is_digit r); try discriminate.
-      destruct nm; [discriminate|]. intros H; inversion H; subst; simpl. split; [discriminate|congruence].
-    + destruct nm; [discriminate|]. intros H; inversion H; subst; simpl. split; [discriminate|congruence].
-  - destruct (mem_str nm (n0 :: names')) eqn:Hm; simpl.
-    + apply mem_str_In in Hm. destruct rest as [r|].
-      * destruct (parse_tag_args is_letter is_digit r); try discriminate.
-        destruct nm; [discriminate|]. intros H; inversion H; subst; simpl. split; [discriminate|auto].
-      * destruct nm; [discriminate|]. intros H; inversion H; subst; simpl. split; [discriminate|auto].
-    + discriminate.
+      destruct nm; [destruct (mem_str [] (n0 :: names')); [|discriminate]|]; inversion H; subst; exact Hm.
+    + destruct nm; [destruct (mem_str [] (n0 :: names')); [|discriminate]|]; inversion H; subst; exact Hm.
+  - destruct nm; [|discriminate]. rewrite Hm in H. discriminate.
+Qed.
+
+(* one value per considered line: with no tag names requested, only a line that is blank or does not
+   begin with the marker yields nothing -- a tag with an empty name ("+=v") is a tag too *)
+Lemma parse_fn_line_considered marker line :
+  parse_fn_line is_letter is_digit marker [] line = LSkip ->
+  trim is_space line = [] \/ has_prefix marker (trim is_space line) = false.
+Proof.
+  unfold parse_fn_line. destruct (trim is_space line) as [|c l]; [left; reflexivity|].
+  destruct (has_prefix marker (c :: l)); [|right; reflexivity]. cbn [negb].
+  destruct (split_first EQ _) as [key v].
+  unfold parse_tag_key, wants_empty_name. destruct (split_first LP key) as [nm rest]. cbn [fst].
+  destruct rest as [r|].
+  - destruct (parse_tag_args is_letter is_digit r); try discriminate. destruct nm; discriminate.
+  - destruct nm; discriminate.
 Qed.
 
 (* boolean helper v2 *)
